@@ -82,7 +82,23 @@ def quant_depth(t):
     return d + 1 if t[0] in QUANT else d
 
 
+# atom vocabularies: the reference works on p/q; the library is asked about the SAME structure and
+# formula with the atoms spelled differently (short names, names that are substrings or prefixes of
+# the keywords and constants, a swap, one name a prefix of the other).  Index 0-2: identity.
+ATOM_MAPS = [None, None, None,
+             {'p': 'a', 'q': 'b'}, {'p': 'n', 'q': 'o'}, {'p': 't', 'q': 'f'}, {'p': 'e', 'q': 's'},
+             {'p': 'no', 'q': 'al'}, {'p': 'l', 'q': 'se'}, {'p': 'x1', 'q': 'x_2'}, {'p': 'q', 'q': 'p'},
+             {'p': 'pp', 'q': 'p'}, {'p': 'P', 'q': 'Q'}, {'p': 'tru', 'q': 'fals'}, {'p': 'u', 'q': 'r'},
+             {'p': 'state', 'q': 'next_'}, {'p': 'an', 'q': 'd'}, {'p': 'g', 'q': 'x'}]
+
+
+def atom_map(i):
+    return ATOM_MAPS[i % len(ATOM_MAPS)] if i is not None else None
+
+
 def rename_atoms(t, m):
+    if not m:
+        return t
     if t[0] == 'ap':
         return ('ap', m.get(t[1], t[1]))
     if t[0] in LEAF:
